@@ -195,9 +195,40 @@ def run(ctx):
                         ctx.counterexample('a user-supplied FORCEWIN/FORCEUNIX changes the answer of a pure path (%r vs %r)' % (q, p), {'path': q, 'pattern': p})
             finally:
                 os.chdir(old)
+    # directories whose names are made of dots only (three and more: ordinary hidden names, not the special ones), and the
+    # empty pattern: match(p, REALPATH) <=> rglob(p) yields it
+    nd_ = 0
+    dspec = [('...', 'd', None), ('.../f', 'f', None), ('.../sub', 'd', None), ('.../sub/f', 'f', None), ('n', 'd', None), ('n/....', 'd', None), ('n/..../f', 'f', None),
+             ('a', 'd', None), ('a/f.txt', 'f', None), ('a/...', 'f', None), ('..x', 'd', None), ('..x/f', 'f', None), ('f', 'f', None)]
+    with trees.Tree(dspec) as TD:
+        old = os.getcwd()
+        os.chdir(TD.root)
+        try:
+            for pat in ('f', '*', '?', 'sub/f', '*/f', '...', '.../f', '', [''], ('',), ['', 'no-such-name'], ['', 'f'], '*.txt'):
+                for fv in (PL.DOTGLOB, PL.DOTGLOB | PL.GLOBSTAR, PL.DOTGLOB | PL.EXTGLOB, 0, PL.GLOBSTAR):
+                    try:
+                        yielded = set(os.path.relpath(str(p), TD.root) for p in PL.Path('.').rglob(pat, flags=fv))
+                    except Exception as ex_:
+                        ctx.counterexample('Path.rglob(%r, %s) raised %s: %s' % (pat, corr.flag_names(fv), type(ex_).__name__, ex_), {'pattern': repr(pat), 'flags': corr.flag_names(fv)})
+                        continue
+                    for q in sorted(TD.entries()):
+                        nd_ += 1
+                        mq = PL.Path(q).match(pat, flags=fv | PL.REALPATH)
+                        if mq != (q in yielded):
+                            if not fv & PL.DOTGLOB and globcommon.hid(q) and ctx.is_known(lambda e: e['id'] == 'C03-prefix-gstar-hidden'):
+                                known.setdefault('C03-prefix-gstar-hidden', (q, pat, corr.flag_names(fv), mq))
+                                continue
+                            ctx.counterexample('Path(%r).match(%r, %s|REALPATH) = %r but rglob %s it (tree with dots-only directory names)' % (q, pat, corr.flag_names(fv), mq, 'yields' if q in yielded else 'does not yield'),
+                                               {'path': q, 'pattern': repr(pat), 'flags': corr.flag_names(fv), 'tree': dspec})
+                            break
+        finally:
+            os.chdir(old)
+    ctx.counted('match vs rglob on dots-only directory names and the empty pattern', nd_, nd_ // 2, [{'path': '.../f', 'pattern': 'f', 'flags': 'DOTGLOB'}])
     for kid, (q, pat, fl, mq) in sorted(known.items()):
         ctx.known_finding(kid, 'Path(%r).match(%r, %s|REALPATH) = %r, rglob says the opposite' % (q, pat, fl, mq))
     ctx.counted('pathlib views', evals, len(nontriv), [{'pattern': '**/*.txt'}, {'pattern': ['*', '*/']}])
+    from props import fringe
+    fringe.empty_pattern(ctx)
     return ctx.finish(RULE)
 
 
